@@ -61,6 +61,7 @@ type Contract struct {
 	GhostSets     []string       // "name = expr": ghost counter updates performed by a call to this function
 	DynPreserves  []string       // places assumed unchanged by calls through function values made by this function (listed in the evidence)
 	Lemmas        []string       // ghost lemma calls instantiated before the postconditions are checked
+	NamedLoops    []*NamedLoop   // loop contracts addressed by a fragment of the loop header
 	SplitConds    [][2]string    // "splitcond at K :: cond" (value of the split expression, condition)
 	Asserts       []AssertClause // "assert @label after <source fragment> :: expr": proof obligation after the first statement containing the fragment
 	LoopInv       []Clause       // default invariants for every for-loop without own contract
@@ -260,18 +261,53 @@ func parseBlock(body string) (*Contract, error) {
 				c.Decreases = append(c.Decreases, strings.TrimSpace(s))
 			}
 		case "loop":
-			parts := strings.SplitN(rest, " ", 3)
-			if len(parts) < 3 {
-				return nil, fmt.Errorf("bad loop clause %q", cl)
-			}
-			n, err := strconv.Atoi(parts[0])
-			if err != nil {
-				return nil, fmt.Errorf("bad loop ordinal in %q", cl)
-			}
-			lc := c.Loops[n]
-			if lc == nil {
-				lc = &LoopContract{}
-				c.Loops[n] = lc
+			var lc *LoopContract
+			var parts []string
+			if strings.HasPrefix(rest, "\"") {
+				// loop "<fragment of the loop header>" kind clause: the loop is found by its text, not its ordinal
+				q := strings.Index(rest[1:], "\"")
+				if q < 0 {
+					return nil, fmt.Errorf("bad loop clause %q", cl)
+				}
+				frag := rest[1 : 1+q]
+				after := rest[q+2:]
+				if strings.HasPrefix(after, "#") {
+					// "frag"#k: the k-th loop whose header contains the fragment
+					sp := strings.IndexAny(after, " \t")
+					if sp < 0 {
+						return nil, fmt.Errorf("bad loop clause %q", cl)
+					}
+					frag += after[:sp]
+					after = after[sp:]
+				}
+				kv := strings.SplitN(strings.TrimSpace(after), " ", 2)
+				if len(kv) < 2 {
+					return nil, fmt.Errorf("bad loop clause %q", cl)
+				}
+				parts = []string{frag, kv[0], kv[1]}
+				for _, nl := range c.NamedLoops {
+					if nl.Frag == frag {
+						lc = nl.LC
+					}
+				}
+				if lc == nil {
+					lc = &LoopContract{}
+					c.NamedLoops = append(c.NamedLoops, &NamedLoop{Frag: frag, LC: lc})
+				}
+			} else {
+				parts = strings.SplitN(rest, " ", 3)
+				if len(parts) < 3 {
+					return nil, fmt.Errorf("bad loop clause %q", cl)
+				}
+				n, err := strconv.Atoi(parts[0])
+				if err != nil {
+					return nil, fmt.Errorf("bad loop ordinal in %q", cl)
+				}
+				lc = c.Loops[n]
+				if lc == nil {
+					lc = &LoopContract{}
+					c.Loops[n] = lc
+				}
 			}
 			switch parts[1] {
 			case "progress":
@@ -657,4 +693,11 @@ func applyTemplates(contracts []*Contract, funcs []string) []*Contract {
 		}
 	}
 	return out
+}
+
+// NamedLoop: a loop contract attached to the loop whose header contains Frag.
+type NamedLoop struct {
+	Frag string
+	LC   *LoopContract
+	done bool
 }
